@@ -25,7 +25,7 @@ func VerifConstruct() {
 		c := body[i]
 		vAssume(c == ']' || c == '[' || c == '>' || c == '<' || c == '-' || c == '"' || c == '\'' || c == 'a' || c == ' ' || c == '?' || c == '!')
 	}
-	kind := vRange("kind", 0, 6)
+	kind := vRange("kind", 0, 7)
 	var src []byte
 	var wantType TokenType
 	var wantText []byte
@@ -61,6 +61,13 @@ func VerifConstruct() {
 			vAssume(body[i] != '"' && body[i] != '<')
 		}
 		src = append(append([]byte("<e x=\""), body...), "\">"...)
+	case 7: // DOCTYPE with a single-quoted system literal (SystemLiteral ::= "'" [^']* "'")
+		for i := range body {
+			vAssume(body[i] != '\'' && body[i] != '<')
+		}
+		src = append(append([]byte("<!DOCTYPE a SYSTEM '"), body...), "'>"...)
+		wantType = DOCTYPEToken
+		wantText = append(append([]byte(" a SYSTEM '"), body...), '\'')
 	case 5, 6:
 		// handled below: whitespace around '=' and before the '>' of an end tag
 	}
